@@ -211,6 +211,59 @@ fn related_pairs(l: Layout, ys: &[u128]) -> Vec<(u128, std::sync::Arc<Vec<u128>>
 /// panic in the checking build), so its thorough domain is thinner where the full one is most expensive: the
 /// 16-bit binary domain is V16 x B_quick and the 128-bit one B_quick x B_quick. The full thorough
 /// domains run in both builds under C01/C02/C06/C07. `VERIF_C11_FULL=1` restores them here.
+/// Powers of two at *every* exponent (the quick boundary alphabet only has every (w/16)-th): P = +-(2^k + {-1, 0, 1})
+/// for all k, paired in both orders with (i) a short list S of essential partners and (ii) the powers of two at
+/// which the product or quotient sits on the type's overflow or underflow boundary (2^(i+j-f) next to 2^(w-1) or
+/// to one ulp; 2^(i-j+f) likewise). A defect confined to a band of leading-zero counts, shift amounts or
+/// normalisation distances in the middle of the range needs one of these.
+fn power_pairs(l: Layout, b: &[u128]) -> (Vec<u128>, Vec<(u128, std::sync::Arc<Vec<u128>>)>) {
+    use std::sync::Arc;
+    let (w, f) = (l.w as i64, l.frac as i64);
+    let m = vcore::lay::mask(l.w);
+    let inb: std::collections::HashSet<u128> = b.iter().cloned().collect();
+    let pow = |k: i64| -> Option<u128> { if k >= 0 && k < w { Some(1u128 << k) } else { None } };
+    let mut ps: Vec<(i64, u128)> = vec![];
+    let mut seen = std::collections::HashSet::new();
+    for k in 0..w {
+        for d in [0u128, 1, m] {
+            for x in [(1u128 << k).wrapping_add(d) & m, ((1u128 << k).wrapping_add(d)).wrapping_neg() & m] {
+                if !inb.contains(&x) && seen.insert(x) {
+                    ps.push((k, x));
+                }
+            }
+        }
+    }
+    let hw = l.w / 2;
+    let one = if l.frac < l.w { 1u128 << l.frac } else { 0 };
+    let mut s: Vec<u128> = vec![1, m, 2, 3, one, one.wrapping_add(1), one.wrapping_sub(1) & m, one >> 1, l.max_raw(), l.max_raw() - 1, l.min_raw(), l.min_raw().wrapping_add(1) & m, vcore::lay::mask(hw), vcore::lay::mask(hw) << hw, 1u128 << hw, 0x5555_5555_5555_5555_5555_5555_5555_5555 & m, 0xdead_beef_cafe_f00d_1234_5678_9abc_def1u128 >> (128 - l.w), 10, 7u128.wrapping_neg() & m];
+    s.sort();
+    s.dedup();
+    s.retain(|x| *x != 0);
+    let s = Arc::new(s);
+    let mut rel: Vec<(u128, Arc<Vec<u128>>)> = vec![];
+    let pvals: Vec<u128> = ps.iter().map(|p| p.1).collect();
+    for &(k, x) in &ps {
+        let mut partners: Vec<u128> = s.to_vec();
+        for j0 in [w - 1 + f - k, f - k, k + f - (w - 1), k + f, w - 2 + f - k] {
+            for dj in [-1i64, 0, 1] {
+                if let Some(q) = pow(j0 + dj) {
+                    for y in [q, q.wrapping_neg() & m, q.wrapping_sub(1) & m, q.wrapping_add(1) & m] {
+                        if y != 0 && !partners.contains(&y) {
+                            partners.push(y);
+                        }
+                    }
+                }
+            }
+        }
+        rel.push((x, Arc::new(partners)));
+    }
+    let pv = Arc::new(pvals.clone());
+    for &y in s.iter() {
+        rel.push((y, pv.clone()));
+    }
+    (pvals, rel)
+}
+
 fn domain(l: Layout, tier: Tier, c11: bool) -> Domain {
     use std::sync::Arc;
     let thin = c11 && tier == Tier::Thorough && std::env::var("VERIF_C11_FULL").is_err();
@@ -263,7 +316,16 @@ fn domain(l: Layout, tier: Tier, c11: bool) -> Domain {
                     }
                 }
             }
-            let rel = related_pairs(l, &b);
+            let mut rel = related_pairs(l, &b);
+            if btier == Tier::Quick {
+                let (pv, prel) = power_pairs(l, &b);
+                rel.extend(prel);
+                for x in pv {
+                    if seen.insert(x) {
+                        un.push(x);
+                    }
+                }
+            }
             Domain { un, bin: vec![(b.clone(), Arc::new(b))], rel, complete_un: false, complete_bin: false }
         }
     }
